@@ -42,7 +42,8 @@ __CPROVER_ensures(__CPROVER_return_value == 0 || __CPROVER_return_value == -EEAV
         __CPROVER_return_value == -EEAV_LPART_CTRL_CHAR || __CPROVER_return_value == -EEAV_LPART_MISPLACED_QUOTE || __CPROVER_return_value == -EEAV_LPART_SPECIAL ||
         __CPROVER_return_value == -EEAV_LPART_MISPLACED_DOT || __CPROVER_return_value == -EEAV_LPART_TOO_MANY_DOTS || __CPROVER_return_value == -EEAV_LPART_UNQUOTED)
 __CPROVER_ensures((__CPROVER_return_value == -EEAV_LPART_EMPTY) == (g_len == 0))
-__CPROVER_ensures((__CPROVER_return_value == -EEAV_LPART_INVALID_UTF8) ==> (g_pos < g_len))
+/* ... and the byte there is not ASCII (an ASCII byte always decodes); one symbolic read, affordable */
+__CPROVER_ensures((__CPROVER_return_value == -EEAV_LPART_INVALID_UTF8) ==> (g_pos < g_len && BYTE_AT(start + g_pos) >= 0x80))
 __CPROVER_ensures(__CPROVER_return_value == -EEAV_LPART_CTRL_CHAR ==> (g_cur >= 0 && (g_cur < 32 || g_cur == 127)))
 __CPROVER_ensures(__CPROVER_return_value == -EEAV_LPART_TOO_MANY_DOTS ==> (g_cur == '.' && g_prevch == '.'))
 __CPROVER_ensures(__CPROVER_return_value == -EEAV_LPART_MISPLACED_DOT ==> (g_cur == '.' && (g_prevch == -1 || g_pos == g_len)))
